@@ -395,3 +395,24 @@ pub fn sub_alphabet(nenv: usize, nshape: usize) -> Vec<Entry> {
     }
     v
 }
+
+/// Alphabet of the compact "chain" triples (state carried across lines): the record at position
+/// p of a file always has RDATA shape p (A / MX / TXT, so no two records of a file share an
+/// RRset) and one of 9 envelopes = 3 owners (apex, a, b.sub) x 3 (TTL, class) pairs with
+/// colliding and differing TTLs and classes. Index = position * 9 + envelope.
+pub const CHAIN_ENVS: usize = 9;
+pub fn chain_alphabet() -> Vec<Entry> {
+    let shapes = rdata_shapes();
+    let owners = [origin(), o(&["a"]), o(&["b", "sub"])];
+    let tc: [(u32, &'static str); 3] = [(300, "IN"), (86400, "IN"), (300, "CH")];
+    let mut v = vec![];
+    for s in ["A 192.0.2.1", "MX #0", "TXT #0"] {
+        let sh = shapes.iter().find(|x| x.1 == s).unwrap();
+        for ow in &owners {
+            for (ttl, class) in tc {
+                v.push(entry(&(ow.clone(), ttl, class), sh));
+            }
+        }
+    }
+    v
+}
